@@ -19,6 +19,10 @@ _own_c = dict(_own, FLAVOUR="consecutive", OpSet={"batch", "transfer", "burn"}, 
 _auth = dict(_c, Acct=ABC, AuthMode="all", RcSet={"c"}, ToSet={"c"}, FromSet=AB, PreMode="two",
              OpSet={"approve", "approve_for_all", "transfer_from", "burn_from", "transfer", "burn"},
              MaxId=2, XIds=set(), NS={1}, TIds={0}, DUs={0, 1}, DTs={0, 1})
+# the spender holds a token himself (0, 1 -> a, 2 -> b; b approved / operator): balances of all three parties matter
+_held = dict(_c, Acct=ABC, AuthMode="self", RcSet={"c"}, ToSet={"b"}, FromSet={"a"}, PreMode="three",
+             OpSet={"approve", "approve_for_all", "transfer_from", "burn_from", "transfer", "burn"},
+             MaxId=3, XIds=set(), NS={1}, TIds={0, 1, 2}, DUs={1}, DTs={0})
 _auth_t = dict(DUs={0, 1, 5999999, 6000000}, PastDU=True, ToSet={"b", "c"})
 _inv = ["NoViolation", "Refines"]
 
@@ -117,6 +121,8 @@ MODEL = dict(
         _mc("auth_base", dict(_auth, FLAVOUR="base", Depth=3), dict(Depth=4, ToSet={"b", "c"})),
         _mc("auth_enum", dict(_auth, FLAVOUR="enumerable", Depth=2), dict(Depth=3, ToSet={"b", "c"})),
         _mc("auth_cons", dict(_auth, FLAVOUR="consecutive", Depth=3), dict(_auth_t, Depth=3)),
+        _mc("held_base", dict(_held, FLAVOUR="base", Depth=3), dict(Depth=4), replay_all=True),
+        _mc("held_enum", dict(_held, FLAVOUR="enumerable", Depth=3), dict(Depth=4), replay_all=True),
         # vacuity guards: re-introduced bugs must make the monitors fail
         _mc("nonvacuous_cons", dict(_own_c, Depth=3, BUG="no_prev_marker"), emit=False,
             invariants=["NoViolation"], expect="violation"),
